@@ -9,7 +9,7 @@ def prepare(case):
     d = case["in"]
     names = d["names"]
     edges = [tuple(e) for e in d["edges"]]
-    assert names and all(e[0] in names and e[2] in names and e[1] in KINDS for e in edges) and not has_allof_cycle(names, edges)
+    assert names and all(e[0] in names and e[2] in names and e[1] in KINDS + KINDS_EXTRA for e in edges) and not has_allof_cycle(names, edges)
     roots = d.get("roots") or names
     assert all(x in names for x in roots)
     spec = graph_spec(names, edges, roots)
@@ -40,7 +40,7 @@ def cases(ctx):
             names = ["A", "B", "C"]
             edges = []
             for _ in range(r.randint(1, 3)):
-                e = (r.choice(names), r.choice(KINDS), r.choice(names))
+                e = (r.choice(names), r.choice(KINDS + KINDS_EXTRA), r.choice(names))
                 if e not in edges:
                     edges.append(e)
             if not has_allof_cycle(names, edges):
@@ -50,9 +50,11 @@ def cases(ctx):
         out.append({"op": "graph.emit", "in": {"names": names, "edges": [list(e) for e in edges]}})
     for _ in range(100 if ctx.quick else 1500):
         names = ["A", "B", "C", "D", "E", "F"][: r.randint(3, 6)]
+        if r.random() < 0.5:
+            names = names[:-2] + r.sample(ODD_NAMES, 2) if len(names) > 2 else r.sample(ODD_NAMES, 2)
         edges = []
         for _ in range(r.randint(2, 9)):
-            e = (r.choice(names), r.choice(KINDS), r.choice(names))
+            e = (r.choice(names), r.choice(KINDS + KINDS_EXTRA), r.choice(names))
             if e not in edges:
                 edges.append(e)
         if has_allof_cycle(names, edges):
